@@ -4,10 +4,11 @@ import GoDcp.Driver.Rollback
 import GoDcp.Driver.Health
 import GoDcp.Driver.Keys
 import GoDcp.Driver.AsyncOp
+import GoDcp.Driver.Config
 /-! registry of all stateless handlers (one list per slice) -/
 namespace GoDcp.Driver
 
 def allHandlers : List (String × (List String → Option String → Option Out)) :=
-  pureHandlers ++ versionHandlers ++ rollbackHandlers ++ healthHandlers ++ keysHandlers ++ asyncOpHandlers
+  pureHandlers ++ versionHandlers ++ rollbackHandlers ++ healthHandlers ++ keysHandlers ++ asyncOpHandlers ++ configHandlers
 
 end GoDcp.Driver
